@@ -263,6 +263,20 @@ class Run(object):
                     self.ctx.fired('layout-x-' + lay)
         self.nobit = cfg['recipe'] in NOBIT_RECIPES
         self.is_functional = op.is_functional
+        sib = getattr(op, '_sim_sibling', None)
+        if sib is not None:
+            # calls on a second product of the same factory come first
+            try:
+                with seams.allocator(self.k1, salt=12):
+                    gs = np_rng('sibling', self.plan['xseed'])
+                    y = SP.rand_elem(sib.domain, gs, scale, pos)
+                    sib(y)
+                    if sib.domain == sib.range:
+                        sib(y, out=y)
+                        sib(y, out=y)
+                self.ctx.fired('sibling-called-first')
+            except Exception:
+                self.ctx.probe('sibling-call-raises')
 
     def _count(self, fired):
         for k, v in fired.items():
